@@ -15993,10 +15993,20 @@ gcry_error_t CallasDonnerhackeFinneyShawThayerRFC4880::AsymmetricSignECDSA
 	char buf[2048];
 	gcry_sexp_t sigdata, signature;
 	gcry_error_t ret;
-	size_t buflen = 0, erroff;
+	size_t buflen = 0, erroff, trunclen = in.size();
+	unsigned int qbits = gcry_pk_get_nbits(key);
 
+	// If the output size of the chosen hash is larger than the number of
+	// bits of the group order, only the leftmost bits of the hash result
+	// are used (cf. FIPS 186-4, section 6.4, and the DSA case above).
+	if ((qbits > 0) && ((qbits % 8) == 0))
+	{
+		while ((trunclen * 8) > qbits)
+			--trunclen;
+	}
 	memset(buf, 0, sizeof(buf));
-	for (size_t i = 0; ((i < in.size()) && (i < sizeof(buf))); i++, buflen++)
+	for (size_t i = 0; ((i < in.size()) && (i < sizeof(buf)) &&
+	                    (i < trunclen)); i++, buflen++)
 		buf[i] = in[i];
 	ret = gcry_sexp_build(&sigdata, &erroff,
 		"(data (flags raw) (value %b))", (int)buflen, buf);
@@ -16104,9 +16114,19 @@ gcry_error_t CallasDonnerhackeFinneyShawThayerRFC4880::AsymmetricVerifyECDSA
 	char buf[2048];
 	gcry_sexp_t sigdata, signature;
 	gcry_error_t ret;
-	size_t buflen = 0, erroff;
+	size_t buflen = 0, erroff, trunclen = in.size();
+	unsigned int qbits = gcry_pk_get_nbits(key);
+
+	// only the leftmost bits of a hash result that is larger than the
+	// group order are used (see above)
+	if ((qbits > 0) && ((qbits % 8) == 0))
+	{
+		while ((trunclen * 8) > qbits)
+			--trunclen;
+	}
 	memset(buf, 0, sizeof(buf));
-	for (size_t i = 0; ((i < in.size()) && (i < sizeof(buf))); i++, buflen++)
+	for (size_t i = 0; ((i < in.size()) && (i < sizeof(buf)) &&
+	                    (i < trunclen)); i++, buflen++)
 		buf[i] = in[i];
 	ret = gcry_sexp_build(&sigdata, &erroff,
 		"(data (flags raw) (value %b))", (int)buflen, buf);
